@@ -623,9 +623,12 @@ class BzrUploader:
                         self.outf.write(f"Ignoring {change.path[0]}\n")
                         self.outf.write(f"Ignoring {change.path[1]}\n")
                     continue
-                if change.changed_content:
-                    # We update the change.path[0] content because renames and
-                    # deletions are differed.
+                if change.kind == ("file", "file") and (
+                    change.changed_content
+                    or change.executable[0] != change.executable[1]
+                ):
+                    # We update the change.path[0] content (and mode) because
+                    # renames and deletions are differed.
                     self.upload_file(change.path[0], change.path[1])
                 self.rename_remote(change.path[0], change.path[1])
             self.finish_renames()
